@@ -519,3 +519,72 @@ pub fn check_errors(h: &RepoHandle, read_data: bool) -> Option<usize> {
     let res = repo.check(opts).ok()?;
     Some(res.0.iter().filter(|(l, _)| format!("{l:?}") == "Error").count())
 }
+
+// ---------------------------------------------------------------------------------------------------------
+// Added for C18/C15 (backwards compatible): a repository has exactly ONE config file whatever id it is
+// written under (like the local / OpenDAL backends, whose config path ignores the id).  `MemBackend` keys
+// every file by (type, id), so a changed config would appear as a second config file; this wrapper maps
+// every config id to the null id.  The op log of the wrapped `MemBackend` still records every call.
+
+#[derive(Clone, Debug)]
+pub struct OneConfigBackend(pub MemBackend);
+
+fn norm_cfg(tpe: FileType, id: &Id) -> Id {
+    if tpe == FileType::Config { Id::default() } else { *id }
+}
+
+impl ReadBackend for OneConfigBackend {
+    fn location(&self) -> String {
+        self.0.location()
+    }
+    fn list_with_size(&self, tpe: FileType) -> RusticResult<Vec<(Id, u32)>> {
+        self.0.list_with_size(tpe)
+    }
+    fn read_full(&self, tpe: FileType, id: &Id) -> RusticResult<Bytes> {
+        self.0.read_full(tpe, &norm_cfg(tpe, id))
+    }
+    fn read_partial(&self, tpe: FileType, id: &Id, cacheable: bool, offset: u32, length: u32) -> RusticResult<Bytes> {
+        self.0.read_partial(tpe, &norm_cfg(tpe, id), cacheable, offset, length)
+    }
+    fn warmup_path(&self, tpe: FileType, id: &Id) -> String {
+        self.0.warmup_path(tpe, id)
+    }
+    fn needs_warm_up(&self) -> bool {
+        self.0.needs_warm_up()
+    }
+    fn warm_up(&self, tpe: FileType, id: &Id) -> RusticResult<()> {
+        self.0.warm_up(tpe, id)
+    }
+}
+
+impl WriteBackend for OneConfigBackend {
+    fn create(&self) -> RusticResult<()> {
+        self.0.create()
+    }
+    fn write_bytes(&self, tpe: FileType, id: &Id, cacheable: bool, content: BytesList) -> RusticResult<()> {
+        self.0.write_bytes(tpe, &norm_cfg(tpe, id), cacheable, content)
+    }
+    fn remove(&self, tpe: FileType, id: &Id, cacheable: bool) -> RusticResult<()> {
+        self.0.remove(tpe, &norm_cfg(tpe, id), cacheable)
+    }
+}
+
+impl RepoHandle {
+    /// like `backends`, but with the single-config-file behaviour of real backends (see `OneConfigBackend`)
+    pub fn backends_oc(&self) -> RepositoryBackends {
+        RepositoryBackends::new(
+            Arc::new(OneConfigBackend(self.be.clone())),
+            self.hot.clone().map(|h| Arc::new(OneConfigBackend(h)) as Arc<dyn WriteBackend>),
+        )
+    }
+    pub fn init_oc(be: MemBackend, hot: Option<MemBackend>, cfg: &ConfigOptions) -> RusticResult<(Self, Repository<OpenStatus>)> {
+        let key = MasterKey::new();
+        let h = Self { be, hot, key };
+        let repo = Repository::new(&Self::default_opts(), &h.backends_oc())?;
+        let repo = repo.init(&Credentials::Masterkey(h.key.clone()), &KeyOptions::default(), cfg)?;
+        Ok((h, repo))
+    }
+    pub fn open_oc(&self) -> RusticResult<Repository<OpenStatus>> {
+        Repository::new(&Self::default_opts(), &self.backends_oc())?.open(&Credentials::Masterkey(self.key.clone()))
+    }
+}
